@@ -139,9 +139,9 @@ def intervalOverlapCheck(
         timeOverlapFlag = overlapTime >= timeThreshold
         overlapFlag = timeOverlapFlag
 
-    overlapFlag = (
-        overlapFlag or boundaryOverlapFlag or percentOverlapFlag or timeOverlapFlag
-    )
+    # overlapFlag already reflects the percent and time thresholds: OR-ing the
+    # individual flags back in would let one threshold override the other
+    overlapFlag = overlapFlag or boundaryOverlapFlag
 
     return overlapFlag
 
